@@ -107,7 +107,18 @@ func genPathComponent(rng *RNG) string {
 	var sb strings.Builder
 	sb.WriteString(genAlnumLower(rng, 1+rng.Intn(4)))
 	for k := rng.Intn(3); k > 0; k-- {
-		sb.WriteString(pick(rng, []string{".", "_", "__", "-", "--", "---", ".", "_", "__", "-", "___", "..", "_.", "-_"}))
+		sb.WriteString(pick(rng, []string{".", "_", "__", "-", "--", "---"}))
+		sb.WriteString(genAlnumLower(rng, 1+rng.Intn(3)))
+	}
+	return sb.String()
+}
+
+// genDirtyRepo builds names that are *nearly* valid: wrong separator runs between otherwise valid pieces.
+func genDirtyRepo(rng *RNG) string {
+	var sb strings.Builder
+	sb.WriteString(genAlnumLower(rng, 1+rng.Intn(3)))
+	for k := 1 + rng.Intn(3); k > 0; k-- {
+		sb.WriteString(pick(rng, []string{"___", "____", "..", "_.", "-_", "._", "__-", "/", "//", ".", "_", "__", "--"}))
 		sb.WriteString(genAlnumLower(rng, 1+rng.Intn(3)))
 	}
 	return sb.String()
@@ -267,6 +278,8 @@ func (*c17) Gen(rng *RNG, tier string) []Case {
 			h = mutate(rng, h)
 		case 1:
 			r = mutate(rng, r)
+		case 5:
+			r = genDirtyRepo(rng)
 		case 2:
 			tg = mutate(rng, tg)
 		case 3:
